@@ -2,4 +2,4 @@ From FV Require Import Common.ExtractTypes Common.EventLog HashMap.HashMapModel 
 From Coq Require Extraction.
 From Coq Require Import ExtrOcamlBasic.
 Extraction "../build/extract/hashmap_model.ml" types_witness empty_hm step run empty_lhm lstep destructor_evs
-  p_init p_step p_destroy fuel_for abs.
+  p_init p_step p_destroy fuel_for abs p_rehash.
